@@ -19,12 +19,12 @@ import (
 func init() { props["C14"] = runC14 }
 
 type hookTask struct {
-	ctx       int  // index of its context, -1: none
-	cond      byte // 'n' none, 't' true, 'f' false
-	before    bool
-	after     bool
-	fail      bool
-	badDir    bool // the task's dir is a template that cannot be rendered: the run fails when its commands are compiled
+	ctx    int  // index of its context, -1: none
+	cond   byte // 'n' none, 't' true, 'f' false
+	before bool
+	after  bool
+	fail   bool
+	badDir bool // the task's dir is a template that cannot be rendered: the run fails when its commands are compiled
 }
 
 type hookScenario struct {
@@ -183,9 +183,9 @@ func (s hookScenario) yaml(trace string) string {
 
 type hookObs struct {
 	executed []bool // which tasks were requested to run at all (the CLI stops at the first failing target)
-	trace   []string
-	runErr  []bool
-	crashed string
+	trace    []string
+	runErr   []bool
+	crashed  string
 }
 
 func runHookScenario(s hookScenario) hookObs {
